@@ -65,6 +65,100 @@ def _canonical_filter(f):
     return g
 
 
+def _evaluate_meta_rewrite(ctx, f):
+    """Run the filter's handling of one `<meta ...>` EmptyTag token for representative attribute lists (a charset attribute; the
+    http-equiv / content pair in both orders and in mixed case; look-alikes that declare nothing) and compare what is left in the
+    token and in the found-flag with what the statement asks for: an existing declaration is rewritten to the requested encoding
+    and counted, anything else is left alone and not counted.  Returns True when every case could be decided."""
+    from collections import OrderedDict
+    from ..partition import MiniInterp, Opaque
+    r = ctx.r
+    ce = ctx.ce
+    arm = None
+    for n in ast.walk(f.node):
+        if isinstance(n, ast.If) and "'meta'" in norm(n.test) and "token['name']" in norm(n.test):
+            arm = n
+            break
+    if arm is None:
+        return False
+    flags = sorted({x.id for st in arm.body for x in ast.walk(st) if isinstance(x, ast.Name) and isinstance(x.ctx, ast.Store)})
+    found_flag = next((x for x in flags if "found" in x), None)
+    if found_flag is None:
+        return False
+    CASES = [
+        ("charset", [((None, "charset"), "old")], {(None, "charset"): "NEW"}, True),
+        ("charset-upper", [((None, "CHARSET"), "old")], {(None, "CHARSET"): "NEW"}, True),
+        ("pragma", [((None, "http-equiv"), "Content-Type"), ((None, "content"), "text/html; charset=old")],
+         {(None, "http-equiv"): "Content-Type", (None, "content"): "text/html; charset=NEW"}, True),
+        ("pragma-content-first", [((None, "content"), "text/html; charset=old"), ((None, "http-equiv"), "content-type")],
+         {(None, "content"): "text/html; charset=NEW", (None, "http-equiv"): "content-type"}, True),
+        ("pragma-with-other-attrs", [((None, "id"), "x"), ((None, "content"), "text/html; charset=old"), ((None, "name"), "y"), ((None, "http-equiv"), "content-type")],
+         {(None, "id"): "x", (None, "content"): "text/html; charset=NEW", (None, "name"): "y", (None, "http-equiv"): "content-type"}, True),
+        ("refresh", [((None, "http-equiv"), "refresh"), ((None, "content"), "5; url=x")], {(None, "http-equiv"): "refresh", (None, "content"): "5; url=x"}, False),
+        ("content-only", [((None, "content"), "text/html; charset=old")], {(None, "content"): "text/html; charset=old"}, False),
+        ("name-description", [((None, "name"), "description"), ((None, "content"), "charset")], {(None, "name"): "description", (None, "content"): "charset"}, False),
+        ("namespaced-charset", [(("ns", "charset"), "old")], {("ns", "charset"): "old"}, False),
+    ]
+    decided = True
+    for label, attrs, want, want_found in CASES:
+        data = OrderedDict(attrs)
+        token = {"type": "EmptyTag", "name": "meta", "namespace": None, "data": data}
+
+        def expr_hook(node, env):
+            if norm(node) == "self.encoding":
+                return "NEW"
+            return NotImplemented
+
+        def stmt_hook(st, o, interp):
+            if isinstance(st, ast.Assign) and len(st.targets) == 1 and isinstance(st.targets[0], ast.Subscript) and \
+                    norm(st.targets[0].value) == "token['data']":
+                o.env["token"]["data"][interp.eval_expr(st.targets[0].slice, o.env)] = interp.eval_expr(st.value, o.env)
+                return False
+            if isinstance(st, ast.For):
+                if isinstance(st.iter, ast.Call) and isinstance(st.iter.func, ast.Attribute) and st.iter.func.attr in ("items", "keys", "values") and not st.iter.args:
+                    seq = list(getattr(interp.eval_expr(st.iter.func.value, o.env), st.iter.func.attr)())
+                else:
+                    seq = list(interp.eval_expr(st.iter, o.env))
+                broke = False
+                for item in seq:
+                    tgt = st.target
+                    def bind(t, v):
+                        if isinstance(t, ast.Name):
+                            o.env[t.id] = v
+                        else:
+                            for tt, vv in zip(t.elts, v):
+                                bind(tt, vv)
+                    bind(tgt, item)
+                    left = interp._block(st.body, o)
+                    if o.returned or o.raised:
+                        return True
+                    if left and o.flow == "break":
+                        o.flow = None
+                        broke = True
+                        break
+                    o.flow = None
+                if not broke:
+                    return interp._block(st.orelse, o)
+                return False
+            return NotImplemented
+        key = "meta-rewrite[%s]" % label
+        env = {"token": token, "self": Opaque("self"), "type": "EmptyTag"}
+        for fl in flags:
+            env.setdefault(fl, False)
+        try:
+            res = MiniInterp(ce, f.module, expr_hook=expr_hook, stmt_hook=stmt_hook).run(arm.body, env)
+        except Exception as e:      # noqa: BLE001
+            decided = False
+            r.note("meta-rewrite[%s] not evaluated: %s: %s" % (label, type(e).__name__, str(e)[:120]))
+            continue
+        got, got_found = dict(token["data"]), bool(res.env.get(found_flag))
+        r.check("R15.2", got == want and got_found == want_found, key, "%s:%d" % (REL, arm.lineno),
+                "<meta %s> with the requested encoding NEW: the filter leaves %s and %s it as a declaration; expected %s, %s" % (
+                    " ".join("%s=%r" % (k[1], v) for k, v in attrs), got, "counts" if got_found else "does not count", want,
+                    "counted" if want_found else "not counted"), detail={"found": got_found})
+    return decided
+
+
 def codec_agreement(ctx):
     """R15.6: the bytes have to be produced by the encoder of the encoding that a *reader* resolves the declared label to (the
     reader goes through webencodings / the Encoding standard: `latin1` means windows-1252, `big5` means Big5-HKSCS, ...).
@@ -183,10 +277,11 @@ def run(ctx):
                 "the </head> path can finish without considering whether a meta must be injected")
     else:
         raise AnalysisError("inject_meta_charset: post_head transition not found")
-    # rewrite of existing declarations
+    # rewrite of existing declarations: the arm that handles a meta EmptyTag is *evaluated* on attribute lists in both orders
+    evaluated = _evaluate_meta_rewrite(ctx, f)
     rew = [n for n in cfg.stmt_nodes() if n.kind == "stmt" and isinstance(n.ast, ast.Assign) and norm(n.ast.targets[0]).startswith("token['data'][")]
     texts = sorted(norm(n.ast) for n in rew)
-    r.idiom("R15.2", texts == ["token['data'][None, 'content'] = 'text/html; charset=%s' % self.encoding",
+    r.idiom("R15.2", evaluated or texts == ["token['data'][None, 'content'] = 'text/html; charset=%s' % self.encoding",
                                "token['data'][namespace, name] = self.encoding"], "rewrites", f.where,
             "existing declarations are not rewritten to the requested encoding: %s" % texts,
             wrong=[(len(texts) < 2, None),
@@ -278,7 +373,12 @@ def run(ctx):
     r.idiom("R15.2", n_cont == 1 and _re.search(r"yield \{'type': 'EndTag', 'name': 'head'[^}]*\} meta_found = True continue", src) is not None, "continue-only-after-replacement",
             f.where, "a `continue` skips the buffer-or-yield step other than after replacing an empty head (%d)" % n_cont)
     init = repo.func(REL, "Filter.__init__")
-    r.check("R15.2", any(norm(s) == "self.encoding = encoding" for s in init.node.body), "encoding-stored", init.where, "the filter does not keep the requested encoding")
+    rewrites = [norm(a) for a in ast.walk(init.node) if isinstance(a, (ast.Assign, ast.AugAssign)) and
+                any(isinstance(t, ast.Name) and t.id == "encoding" for t in (a.targets if isinstance(a, ast.Assign) else [a.target]))]
+    r.check("R15.2", any(norm(s) == "self.encoding = encoding" for s in init.node.body) and not rewrites, "encoding-stored", init.where,
+            "the filter does not declare the label it was asked for%s" % (
+                ": it rewrites it first (`%s`) -- the name Python's codec registry gives (euc_jp, mac-roman, iso2022_jp, ...) is not a label "
+                "the Encoding standard knows, so the declaration is unreadable and the bytes are decoded with the fallback" % rewrites[0] if rewrites else ""))
 
     # ---- R15.3
     from .c08 import serialize_cfg, yields
